@@ -47,7 +47,7 @@ theorem adjust_span {lo : Rat} {xs out : LI L} {tmin tmax : Option Rat} {sl el :
         obtain ⟨hb, tl', ht⟩ := hhead hd tl hx1
         refine ⟨_, tl', ht, ?_⟩
         simp only [hda]
-        exact min_eq_right (hda ▸ hb)
+        exact min_eq_right (le_of_lt (hda ▸ hb))
 
 /-- The output is time-ordered and non-overlapping. -/
 theorem adjust_ordered {lo : Rat} {xs out : LI L} {tmin tmax : Option Rat} {sl el : L} (hc : Chain lo xs)
@@ -78,11 +78,11 @@ theorem adjust_within {xs out : LI L} {tmin tmax : Option Rat} {sl el : L} (hne 
   · intro b hb; subst hb
     exact adjustMax_ub h2 x hx
 
-/-- No exception on a time-ordered annotation and a proper range (`t_min ≤ t_max`; with `t_min` absent the
-    first interval must start by `t_max`). -/
+/-- No exception on a time-ordered annotation and a proper range (`t_min < t_max`; with `t_min` absent the
+    first interval must start before `t_max`). -/
 theorem adjust_total {lo : Rat} {x0 : Rat × Rat × L} {r : LI L} {tmin tmax : Option Rat} {sl el : L}
-    (hc : Chain lo (x0 :: r)) (hab : ∀ a b, tmin = some a → tmax = some b → a ≤ b)
-    (hb : ∀ b, tmin = none → tmax = some b → x0.1 ≤ b) :
+    (hc : Chain lo (x0 :: r)) (hab : ∀ a b, tmin = some a → tmax = some b → a < b)
+    (hb : ∀ b, tmin = none → tmax = some b → x0.1 < b) :
     ∃ out, adjustIntervals (x0 :: r) tmin tmax sl el = .ok out := by
   simp only [adjustIntervals]
   cases tmin with
@@ -106,53 +106,63 @@ example : Chain 0 [((1 : Rat), (3 : Rat), "a"), (3, 6, "b")] ∧
       = .ok [(2, 3, "a"), (3, 5, "b")] := by
   refine ⟨⟨?_, ?_, ?_, ?_, trivial⟩, ?_⟩ <;> decide +kernel
 
-/-! ### strictly positive durations: false as stated, true away from three coincidences -/
+/-! ### strictly positive durations: true unless every interval lies before `t_min` -/
 
 /-- The full-strength claim: on a time-ordered annotation and a proper range, every returned interval has
-    strictly positive duration.  It is FALSE of the code as it is (see below). -/
+    strictly positive duration.  Since the repair `b04f12e` (an interval ending exactly at `t_min` or starting
+    exactly at `t_max` is now dropped) it fails only when NO interval ends after `t_min`: then nothing is
+    cropped and `np.maximum` collapses every interval to `[t_min, t_min]`. -/
 def adjust_posdur_full_statement : Prop :=
   ∀ (lo : Rat) (xs out : LI String) (tmin tmax : Option Rat) (sl el : String),
     Chain lo xs → xs ≠ [] → (∀ a b, tmin = some a → tmax = some b → a < b) →
     adjustIntervals xs tmin tmax sl el = .ok out → ∀ x ∈ out, x.1 < x.2.1
 
-/-- witness: `[[0,2],[2,4]]`, `t_min = 2` gives `[[2,2],[2,4]]` -/
+/-- witness (the remaining part of the defect): `[[0,1],[1,2]]`, `t_min = 3`, `t_max = 5` gives
+    `[[3,3],[3,3],[3,5]]` -/
 theorem adjust_posdur_full_statement_false : ¬ adjust_posdur_full_statement := by
   intro h
-  have := h 0 [(0, 2, "a"), (2, 4, "b")] [(2, 2, "a"), (2, 4, "b")] (some 2) none "S" "E"
+  have := h 0 [(0, 1, "a"), (1, 2, "b")] [(3, 3, "a"), (3, 3, "b"), (3, 5, "E")] (some 3) (some 5) "S" "E"
     (by refine ⟨?_, ?_, ?_, ?_, trivial⟩ <;> decide +kernel) (by simp)
-    (by intro a b _ h; cases h) (by decide +kernel) (2, 2, "a") (by simp)
+    (by intro a b h1 h2; cases h1; cases h2; decide +kernel) (by decide +kernel) (3, 3, "a") (by simp)
   exact absurd this (by decide +kernel)
 
-/-- The strongest true version: no input interval ends exactly at `t_min`, some interval ends after `t_min`,
-    and no input interval starts exactly at `t_max`. -/
+/-- The strongest true version: some input interval ends after `t_min` (nothing else is assumed: intervals
+    ending exactly at `t_min` or starting exactly at `t_max` are allowed, any `t_max`). -/
 theorem adjust_posdur_partial {lo : Rat} {xs out : LI L} {tmin tmax : Option Rat} {sl el : L}
-    (hc : Chain lo xs) (hab : ∀ a b, tmin = some a → tmax = some b → a < b)
-    (hmin : ∀ a, tmin = some a → (∀ x ∈ xs, x.2.1 ≠ a) ∧ ∃ x ∈ xs, a < x.2.1)
-    (hmax : ∀ b, tmax = some b → ∀ x ∈ xs, x.1 ≠ b)
+    (hc : Chain lo xs) (hmin : ∀ a, tmin = some a → ∃ x ∈ xs, a < x.2.1)
     (ho : adjustIntervals xs tmin tmax sl el = .ok out) : ∀ x ∈ out, x.1 < x.2.1 := by
   by_cases hne : xs = []
   · subst hne
     obtain ⟨a, b, rfl, rfl, rfl⟩ := adjustIntervals_nil_ok ho
-    obtain ⟨x, hx, _⟩ := (hmin a rfl).2
+    obtain ⟨x, hx, _⟩ := hmin a rfl
     cases hx
   · obtain ⟨x1, h1, h2⟩ := adjustIntervals_ok hne ho
-    have hp1 : (∀ x ∈ x1, x.1 < x.2.1) ∧ (∀ b, tmax = some b → ∀ x ∈ x1, x.1 ≠ b) := by
+    have hp1 : ∀ x ∈ x1, x.1 < x.2.1 := by
       cases tmin with
       | none =>
         simp only at h1; subst h1
-        exact ⟨fun x hx => (hc.lb x hx).2, hmax⟩
+        exact fun x hx => (hc.lb x hx).2
       | some a =>
         simp only at h1
-        refine ⟨adjustMin_posdur hc (hmin a rfl).1 (hmin a rfl).2 h1, ?_⟩
-        intro b hb x hx
-        have hlt := hab a b rfl hb
-        rcases adjustMin_starts h1 x hx with h | ⟨y, hy, h⟩
-        · rw [h]; exact ne_of_lt hlt
-        · have := hmax b hb y hy
-          rw [h]; grind
+        exact adjustMin_posdur hc (hmin a rfl) h1
     cases tmax with
-    | none => simp only at h2; subst h2; exact hp1.1
-    | some b => exact adjustMax_posdur (fun x hx => ⟨hp1.1 x hx, hp1.2 b rfl x hx⟩) h2
+    | none => simp only at h2; subst h2; exact hp1
+    | some b => exact adjustMax_posdur hp1 h2
+
+/-- Corollary (what the repair achieved): with `t_min` absent, or `t_min` below the last end, there is never a
+    zero-length interval — in particular when an interval ends exactly at `t_min` or starts exactly at
+    `t_max`. -/
+theorem adjust_posdur_of_last_end {lo : Rat} {xs out : LI L} {z : Rat × Rat × L} {tmin tmax : Option Rat}
+    {sl el : L} (hc : Chain lo xs) (hz : xs.getLast? = some z) (hmin : ∀ a, tmin = some a → a < z.2.1)
+    (ho : adjustIntervals xs tmin tmax sl el = .ok out) : ∀ x ∈ out, x.1 < x.2.1 :=
+  adjust_posdur_partial hc (fun a ha => ⟨z, List.mem_of_getLast? hz, hmin a ha⟩) ho
+
+/-- the formerly failing inputs now give strictly positive durations: an interval ending at `t_min` is
+    dropped, an interval starting at `t_max` is dropped -/
+example : adjustIntervals [((0 : Rat), (2 : Rat), "a"), (2, 4, "b")] (some 2) none "S" "E"
+      = .ok [(2, 4, "b")] ∧
+    adjustIntervals [((0 : Rat), (2 : Rat), "a"), (2, 4, "b")] (some 1) (some 2) "S" "E"
+      = .ok [(1, 2, "a")] := by decide +kernel
 
 /-- non-vacuity: a cropped, padded example with gaps satisfies every hypothesis and is computed -/
 example : adjustIntervals [((1 : Rat), (3 : Rat), "a"), (4, 6, "b")] (some 2) (some 7) "S" "E"
@@ -165,8 +175,10 @@ example : adjustIntervals [((1 : Rat), (3 : Rat), "a"), (4, 6, "b")] (some 2) (s
 def expectedLabel (x0 z : Rat × Rat × L) (xs : LI L) (sl el : L) (t : Rat) : Option L :=
   if t < x0.1 then some sl else if z.2.1 ≤ t then some el else labelAt xs t
 
-/-- The full-strength claim.  FALSE of the code as it is: when `t_min` (`t_max`) falls strictly inside an
-    internal gap, the part of that gap inside the range is given the start (end) label. -/
+/-- The full-strength claim.  FALSE of the code as it is (not repaired): when `t_min` (`t_max`) cuts an
+    internal gap `[e, s')` — `e ≤ t_min < s'`, resp. `e < t_max ≤ s'` — the part of that gap inside the range is
+    given the start (end) label.  (Since the repair `b04f12e` drops an interval that ends exactly at `t_min` /
+    starts exactly at `t_max`, the crop point coinciding with the edge of the gap is now part of this region.) -/
 def adjust_labelAt_full_statement : Prop :=
   ∀ (lo : Rat) (x0 z : Rat × Rat × String) (r out : LI String) (tmin tmax : Option Rat) (sl el : String)
     (t : Rat),
@@ -187,14 +199,15 @@ theorem adjust_labelAt_full_statement_false : ¬ adjust_labelAt_full_statement :
     (by intro b h; cases h) (by intro _; decide +kernel)
   exact absurd this (by decide +kernel)
 
-/-- The strongest true version: neither `t_min` nor `t_max` lies strictly inside an internal gap.
+/-- The strongest true version: neither `t_min` nor `t_max` cuts an internal gap (`NoStraddleMin`,
+    `NoStraddleMax`).
     Arbitrary size, arbitrary rational / absent crop points (equal to boundaries, inside intervals, beyond
     either end), zero-length leftovers included. -/
 theorem adjust_labelAt_partial {lo : Rat} {x0 z : Rat × Rat × L} {r out : LI L} {tmin tmax : Option Rat}
     {sl el : L} {t : Rat}
     (hc : Chain lo (x0 :: r)) (hz : (x0 :: r).getLast? = some z)
     (hab : ∀ a b, tmin = some a → tmax = some b → a < b)
-    (hsa : ∀ a, tmin = some a → NoStraddle a (x0 :: r)) (hsb : ∀ b, tmax = some b → NoStraddle b (x0 :: r))
+    (hsa : ∀ a, tmin = some a → NoStraddleMin a (x0 :: r)) (hsb : ∀ b, tmax = some b → NoStraddleMax b (x0 :: r))
     (ho : adjustIntervals (x0 :: r) tmin tmax sl el = .ok out)
     (hta : ∀ a, tmin = some a → a ≤ t) (hta' : tmin = none → x0.1 ≤ t)
     (htb : ∀ b, tmax = some b → t < b) (htb' : tmax = none → t < z.2.1) :
@@ -205,7 +218,7 @@ theorem adjust_labelAt_partial {lo : Rat} {x0 z : Rat × Rat × L} {r out : LI L
   have hs1 : (∃ l1, WChain l1 x1) ∧
       (labelAt x1 t = if t < x0.1 then some sl else labelAt (x0 :: r) t) ∧
       (∃ z1, x1.getLast? = some z1 ∧ (z1.2.1 ≤ t ↔ z.2.1 ≤ t)) ∧
-      (∀ b, tmax = some b → NoStraddle b x1) := by
+      (∀ b, tmax = some b → NoStraddleMax b x1) := by
     cases tmin with
     | none =>
       simp only at h1; subst h1
@@ -365,9 +378,9 @@ example : mergeLabeled [((0 : Rat), (2 : Rat), "a"), (2, 4, "b")] [((0 : Rat), (
     = .ok [(0, 1, "a", "X"), (1, 2, "a", "Y"), (2, 4, "b", "Y")] := by decide +kernel
 
 /-- non-vacuity of the hypotheses of `adjust_labelAt_partial` / `adjust_posdur_partial` -/
-example : NoStraddle 2 [((1 : Rat), (3 : Rat), "a"), (4, 6, "b")] ∧
-    NoStraddle (11/2) [((1 : Rat), (3 : Rat), "a"), (4, 6, "b")] ∧
-    ¬ NoStraddle (7/2) [((1 : Rat), (3 : Rat), "a"), (4, 6, "b")] := by
+example : NoStraddleMin 2 [((1 : Rat), (3 : Rat), "a"), (4, 6, "b")] ∧
+    NoStraddleMax (11/2) [((1 : Rat), (3 : Rat), "a"), (4, 6, "b")] ∧
+    ¬ NoStraddleMin 3 [((1 : Rat), (3 : Rat), "a"), (4, 6, "b")] := by
   refine ⟨⟨?_, trivial⟩, ⟨?_, trivial⟩, ?_⟩
   · decide +kernel
   · decide +kernel
